@@ -370,6 +370,10 @@ func (e *Entry) importErrors(c *Entry) {
 	for _, ce := range c.Dir {
 		e.importErrors(ce)
 	}
+	if c.RPC != nil {
+		e.importErrors(c.RPC.Input)
+		e.importErrors(c.RPC.Output)
+	}
 }
 
 // checkErrors calls f on every error found in the tree e and its children.
@@ -379,6 +383,10 @@ func (e *Entry) checkErrors(f func(error)) {
 	}
 	for _, e := range e.Dir {
 		e.checkErrors(f)
+	}
+	if e.RPC != nil {
+		e.RPC.Input.checkErrors(f)
+		e.RPC.Output.checkErrors(f)
 	}
 	for _, err := range e.Errors {
 		f(err)
